@@ -571,8 +571,7 @@ def scratch_rules(ctx, lexpr, suffix=""):
     if not unchecked_feeders and not suffix:
         r.anchor_missing("no scanner receiving an unchecked-conversion closure was found (StrRead::parse_r6rs_str / parse_symbol)")
     r.note("scanners feeding unchecked conversions: %s" % sorted(unchecked_feeders))
-    feeder_reach = mono_reach(ctx, lexpr, unchecked_feeders) if not suffix else reach.reachable(
-        reach.build_graph(lexpr, std_dispatch=False), unchecked_feeders)
+    feeder_reach = mono_reach(ctx, lexpr, unchecked_feeders) if not suffix else reach.typed_reachable(lexpr, unchecked_feeders)
     for p in sorted(writers):
         fn = lexpr.fn(p)
         for cls, desc, line in writers[p]:
